@@ -9,13 +9,14 @@ import (
 // identifier or neutral filler of the generated statements contains, plus the index of the
 // literal position it sits in (so a leak names the position).
 const (
-	MarkerLetters = "zqjmarker" // core of string markers
-	MarkerDigits  = "98765"     // core of integer / decimal / negative markers
-	MarkerExp     = "9.8765"    // core of exponent-notation markers
+	MarkerLetters = "zqjmarker"        // core of string markers
+	MarkerDigits  = "98765"            // core of integer / decimal / negative markers
+	MarkerExp     = "9.8765"           // core of exponent-notation markers
+	MarkerBits    = "1011001110001111" // core of bit-string markers (B'..')
 )
 
 // Cores are searched (case-insensitively) in redacted statements and log entries.
-var Cores = []string{MarkerLetters, MarkerDigits, MarkerExp}
+var Cores = []string{MarkerLetters, MarkerDigits, MarkerExp, MarkerBits}
 
 // ContainsMarker reports the first core found in s.
 func ContainsMarker(s string) string {
@@ -33,6 +34,8 @@ type Spelling struct {
 	Name   string
 	Render func(pos int) string
 	Only   []string // dialects in which this spelling is a literal ("" = all)
+	// Rare spellings are placed in every single position but not combined in pairs
+	Rare bool
 }
 
 func posLetters(pos int) string {
@@ -53,6 +56,12 @@ func Spellings() []Spelling {
 		{Name: "decimal", Render: func(p int) string { return fmt.Sprintf("%s.%04d", MarkerDigits, p+1) }},
 		{Name: "exponent", Render: func(p int) string { return fmt.Sprintf("%s%04de7", MarkerExp, p+1) }},
 		{Name: "negative", Render: func(p int) string { return fmt.Sprintf("-%s%04d", MarkerDigits, p+1) }},
+		// other quoting forms and numbers that do not fit the machine types
+		{Name: "hex-string", Rare: true, Render: func(p int) string { return "X'" + MarkerDigits + fmt.Sprintf("%03d", p+1) + "'" }},
+		{Name: "bit-string", Rare: true, Render: func(p int) string { return "B'" + MarkerBits + fmt.Sprintf("%08b", p+1) + "'" }},
+		{Name: "hex-number", Rare: true, Render: func(p int) string { return "0x" + MarkerDigits + fmt.Sprintf("%03d", p+1) }},
+		{Name: "integer-beyond-int64", Rare: true, Render: func(p int) string { return MarkerDigits + fmt.Sprintf("%04d", p+1) + "00000000000000000" }},
+		{Name: "float-beyond-float64", Rare: true, Render: func(p int) string { return fmt.Sprintf("%s%04de999", MarkerExp, p+1) }},
 	}
 }
 
@@ -168,6 +177,11 @@ func LitTemplates() []LitTemplate {
 		{"delete", "delete from t where a = {} and b in ({}, {})"},
 		{"delete", "delete a from a join b on a.id = b.id where b.x = {}"},
 		{"delete", "delete from t where a = {} returning b, {}"},
+		// statements that are not DML
+		{"show", "show tables like {}"},
+		{"show", "show tables from db where a = {}"},
+		{"ddl", "create table t (a varchar(10) default {}, b int default {} comment {})"},
+		{"ddl", "create table t (a timestamp default {} on update {})"},
 	}
 }
 
